@@ -125,7 +125,7 @@ func CompareResults(a, b *abci.ResponseFinalizeBlock) string {
 			return fmt.Sprintf("tx %d data differs", i)
 		case x.GasUsed != y.GasUsed || x.GasWanted != y.GasWanted:
 			return fmt.Sprintf("tx %d gas %d/%d != %d/%d", i, x.GasUsed, x.GasWanted, y.GasUsed, y.GasWanted)
-		case x.Log != y.Log:
+		case detLog(x.Log) != detLog(y.Log):
 			return fmt.Sprintf("tx %d log %q != %q", i, x.Log, y.Log)
 		case x.Codespace != y.Codespace:
 			return fmt.Sprintf("tx %d codespace differs", i)
@@ -138,6 +138,18 @@ func CompareResults(a, b *abci.ResponseFinalizeBlock) string {
 		return "validator updates differ"
 	}
 	return ""
+}
+
+// detLog: the log of a transaction whose handler panicked carries the Go stack trace of the
+// recovering process (goroutine ids, pointer values): only its first line is a function of the
+// transaction. Every other log is compared in full.
+func detLog(l string) string {
+	if strings.HasPrefix(l, "recovered:") {
+		if i := strings.Index(l, "\n"); i > 0 {
+			return l[:i]
+		}
+	}
+	return l
 }
 
 // BlockEventsDiff compares block events as multisets (their order is reported separately).
